@@ -9,7 +9,7 @@ M = "github.com/biogo/biogo/zz_verifmodel."
 MODELS = {"fmt." + f: M + f for f in ("Fprintf", "Fprint", "Fprintln", "Sprintf", "Sprint", "Sprintln", "Errorf")}
 jobs = [{"pkgdir": P, "func": "VerifSelf_" + f, "params": p, "witnesses": 6, "models": MODELS} for f, p in [
     ("Builders", {}), ("StringsFuncs", {}), ("BytesFuncs", {}), ("Strconv", {}), ("Sort", {"n": 3}), ("Sort", {"n": 4}),
-    ("Maps", {}), ("Fmt", {}), ("Control", {}), ("IO", {}), ("Arith", {})]]
+    ("Maps", {}), ("Fmt", {}), ("ParallelLoop", {}), ("Control", {}), ("IO", {}), ("Arith", {})]]
 jobs.append({"pkgdir": P, "func": "VerifSelf_RaceFree", "params": {}, "sched": "sym", "preempt": 2, "witnesses": 2})
 jobs.append({"pkgdir": P, "func": "VerifSelf_Cond", "params": {}, "sched": "sym", "preempt": 2, "witnesses": 2})
 jobs.append({"pkgdir": P, "func": "VerifSelf_Atomics", "params": {}, "sched": "sym", "preempt": 2, "witnesses": 2})
